@@ -7,7 +7,7 @@
    code as it is ([fx = false]), under the premises [sums_consistent] / [no_empty_next_to_max]; the refutations
    are theorems too. *)
 From Coq Require Import ZArith QArith List Bool.
-From SH Require Import Common.Wrap Gen.TransferConsts Agg.Model Transfer.Model Transfer.Proofs.
+From SH Require Import Common.Wrap Gen.TransferConsts Agg.Model Transfer.Model Transfer.Proofs Transfer.ProofsKey.
 Import ListNotations.
 Open Scope Z_scope.
 
@@ -98,7 +98,43 @@ Theorem C02_fields_mask_bits :
   isset (mask_of l m) n = existsb (fun cb => fst cb && (snd cb =? n)) l || isset m n.
 Proof. exact isset_mask_of. Qed.
 
+(* "the aggregator reconstructs the same key ... for each of them" across the rows of one bucket: the aggregator
+   tells the rows of a second apart by the bytes of Key.MarshalAppend (k.XXHash + GetOrCreateMultiItem). Those
+   bytes determine the key: for all keys of the Go type (uint32 timestamp, int32 metric and tags, 48 tags and 48
+   string tags) whose string tags carry no zero byte (the aggregator drops rows with other strings:
+   validateStringTag / format.ValidStringValue accept printable characters only) *)
+Theorem C02_row_identity_bytes_injective :
+  forall k1 k2, wf_bkey k1 -> wf_bkey k2 -> marshal_key k1 = marshal_key k2 -> k1 = k2.
+Proof. exact marshal_key_injective. Qed.
+
+(* hence rows with pairwise different keys, arriving in any order after any rows already filed, each get an entry of
+   their own in the per-second map (row i of the batch is filed at position |already filed| + i, never under an
+   earlier row) *)
+Theorem C02_rows_keep_their_identity :
+  forall ks, Forall wf_bkey ks -> NoDup ks ->
+  forall seen_keys, Forall wf_bkey seen_keys -> NoDup (seen_keys ++ ks) ->
+  file_rows ks (map marshal_key seen_keys) = map (fun i => zlen seen_keys + Z.of_nat i) (seq 0 (length ks)).
+Proof. exact rows_keep_their_identity. Qed.
+
+(* the guard is exactly what is needed: with a zero byte inside a string tag, {0:"a\000b"} and {0:"a",1:"b"} have the
+   same bytes (such rows never reach the map: the oracle nul_string_tags_are_rejected checks the validator) *)
+Theorem C02_row_identity_needs_nul_free_strings : nul_k1 <> nul_k2 /\ marshal_key nul_k1 = marshal_key nul_k2.
+Proof. exact nul_collision. Qed.
+
 (* ---- non-vacuity ---- *)
+
+(* four well-formed keys of one second that differ only in how the text "abc" / "eu" is laid out over the string tags
+   have four different byte strings and are filed as rows 0,1,2,3 *)
+Definition ex_bkey (st : list (list Z)) : bkey :=
+  {| b_ts := 1700000000; b_metric := 17; b_tags := 2 :: repeat 0 47; b_stags := st ++ repeat [] (48 - length st) |}.
+Definition ex_bkeys : list bkey :=
+  [ex_bkey [[]; [97; 98]; [99]]; ex_bkey [[]; [97]; [98; 99]]; ex_bkey [[]; [101; 117]; []; [120]]; ex_bkey [[]; []; [101; 117]; [120]]].
+Example C02_nonvacuous_identity :
+  file_rows ex_bkeys [] = [0; 1; 2; 3] /\ length (b_stags (ex_bkey [[]; [97; 98]; [99]])) = 48%nat /\
+  marshal_key (ex_bkey [[]; [97; 98]; [99]]) = [0; 241; 83; 101; 17; 0; 0; 0; 1; 2; 0; 0; 0; 0; 97; 98; 0; 99; 0; 0] /\
+  marshal_key (ex_bkey [[]; [97]; [98; 99]]) = [0; 241; 83; 101; 17; 0; 0; 0; 1; 2; 0; 0; 0; 0; 97; 0; 98; 99; 0; 0].
+Proof. vm_compute. repeat split; reflexivity. Qed.
+
 
 (* a percentile row mixing ApplyValues (histogram + values, count <> totalCount), a unique event and a value
    event from three hosts, sent with sf = 3: it satisfies every premise of the partial theorem, and the
